@@ -54,10 +54,15 @@ def fcbo(model, R, key, S_):
     c0, k0, n0 = init[0].value.elts[0].elts
     start = X(c0)
     want_start = f'{ctx}._Objects.supremum.doubleprime()' if S_ == 'P' else f'{ctx}._Objects.infimum.doubleprime()'
-    alt_ok = False
-    if isinstance(start, ast.Call) and isinstance(start.func, ast.Attribute) and start.func.attr == 'doubleprime':
-        alt_ok = src(start) == want_start
-    R.check(alt_ok, rule, func, init[0], f'{tag}: starts from the concept with the least enumerated component, as (extent, intent)', want_start, src(start))
+    is_closure = isinstance(start, ast.Call) and isinstance(start.func, ast.Attribute) and start.func.attr in ('doubleprime',)
+    if is_closure:
+        R.expr(start, want_start, rule, func, f'{tag}: starts from the concept with the least enumerated component, as (extent, intent)', at=init[0])
+    elif isinstance(start, ast.Tuple) and all(chain(e) or (isinstance(e, ast.Call) and (chain(e.func) or [''])[-1] == 'fromint') for e in start.elts):
+        R.bad(rule, func, init[0], f'{tag}: starts from the concept with the least enumerated component, as (extent, intent)', want_start,
+              src(start), extra={'consequence': 'a literal (least set, greatest set) pair is a formal concept only when it happens to be closed: '
+                                                'with a full row / full column the generator emits a non-concept first'})
+    else:
+        R.unknown(rule, func, init[0], f'{tag}: start concept', src(start))
     R.check(const(k0, 'x') == 0 and not isinstance(const(k0), bool), rule, func, init[0], f'{tag}: start index 0', '0', src(k0))
     tab = X(n0)
     ok = False
@@ -81,9 +86,18 @@ def fcbo(model, R, key, S_):
         raise Unrecognised('j_atom enumeration', func=func, node=func.node)
     v = X(ja.value)
     inner = v.args[0] if isinstance(v, ast.Call) and name_is(v.func, 'list') and v.args else v
-    ok = (isinstance(inner, ast.Call) and name_is(inner.func, 'enumerate') and len(inner.args) == 1
-          and src(X(inner.args[0])) == f'{ctx}.{CLS[S_]}.supremum.atoms()')
-    R.check(ok, rule, func, ja, f'{tag}: positions and atoms of the enumerated axis', f'enumerate({ctx}.{CLS[S_]}.supremum.atoms())', src(inner))
+    filtered = isinstance(inner, (ast.ListComp, ast.GeneratorExp)) and any(g.ifs for g in inner.generators) and 'enumerate' in src(inner)
+    if filtered:
+        # the inner loop resumes with j_atom[k:], where k is a *position of the axis*: that needs j_atom[i] == (i, atom_i)
+        R.bad(rule, func, ja, f'{tag}: positions and atoms of the enumerated axis', f'the full enumerate({ctx}.{CLS[S_]}.supremum.atoms())',
+              src(inner)[:120], extra={'consequence': 'a filtered list is sliced by axis position: after a dropped entry every resume point is shifted '
+                                                      'and candidates are skipped'})
+    else:
+        ok = (isinstance(inner, ast.Call) and name_is(inner.func, 'enumerate') and len(inner.args) == 1)
+        if ok:
+            R.expr(X(inner.args[0]), f'{ctx}.{CLS[S_]}.supremum.atoms()', rule, func, f'{tag}: positions and atoms of the enumerated axis', at=ja)
+        else:
+            R.unknown(rule, func, ja, f'{tag}: positions and atoms of the enumerated axis', src(inner)[:100])
     ja_name = ja.targets[0].id
     # pop + yield
     body = loop.body
@@ -231,7 +245,7 @@ def fcbo(model, R, key, S_):
         pats = list(bitalg.patterns(vars_, row_ok))
         spec = bitalg.Pred(lambda occ: all(not (r[subject] and r['m'] and not r['B']) for r in occ if not r[bitalg.OUTSIDE]), 'spec')
         diff = bitalg.equivalent(pred, spec, pats)
-        R.check(diff is None, rule, func, test, what, want_text, pred.text,
+        R.decided(diff is None, rule, func, test, what, want_text, pred.text,
                 extra={f'rows({subject},B,mask)': [[r[subject], r['B'], r['m']] for r in diff]} if diff else None)
 
     # canonicity: the If that contains the push
@@ -313,8 +327,7 @@ def wrappers(model, R):
         R.check(ok, 'WRAPPER', f, f.node, f'{name}: every generated pair, unfiltered, as Concept', 'Concept._make over fast_generate_from(context)',
                 src(r[0]) if r else '')
     f = model.func('_common.ConceptList.frompairs')
-    r = [src(n.value) for n in walk(f.body) if isinstance(n, ast.Return)]
-    R.check(r == [f'cls(map(Concept._make, {f.params[1]}))'], 'WRAPPER', f, f.node, 'ConceptList.frompairs keeps every pair', 'cls(map(Concept._make, iterconcepts))', str(r))
+    R.returns(f, f'cls(map(Concept._make, {f.params[1]}))', 'WRAPPER', 'ConceptList.frompairs keeps every pair')
     c = model.cls('_common.Concept')
     fields = [s.target.id for s in c.node.body if isinstance(s, ast.AnnAssign) and isinstance(s.target, ast.Name)]
     R.check(fields == ['extent', 'intent'], 'WRAPPER', '_common.Concept', c.node, 'Concept fields are (extent, intent) like the yielded pairs', "['extent', 'intent']", str(fields))
